@@ -190,6 +190,93 @@ theorem adaptive_fill_on_demand (fs : List (List Rat → Rat)) (T : ATable) (K :
   obtain ⟨_, _, h3, h4⟩ := fill_inv hg hI xs hx
   exact ⟨h3, fun i hi => ⟨(List.mem_filter.mp hi).1, quadPoints_fresh hI xs i hi⟩, h4⟩
 
+/-! ### the adaptive table fed from outside (`quadrature_points_from_coordinates` / `assign_values`) -/
+
+/-- **`assign_values` = `_fill_values`.** If the caller evaluates the function at the points returned by
+    `quadrature_points_from_coordinates(x)` and passes values, coordinates and indices to `assign_values`
+    with the columns in ANY order (`inds` is any permutation of the returned indices), the table afterwards
+    is identical — storage order of the sparse array and of `_pt` included — to the table `_fill_values`
+    would have produced. (`SparseNdArray.add` sorts the new columns; `assign_values` permutes the
+    coordinates with the index vector `add` returns.) -/
+theorem assign_values_eq_fill (fs : List (List Rat → Rat)) (T : ATable) (K : List C46.Coord) (hg : Geo T)
+    (hI : Inv fs T K) (hfs : fs ≠ []) (xs : List (List Rat)) (hx : ∀ x ∈ xs, x.length = T.h.length)
+    (inds : List C46.Coord) (hp : inds.Perm (quadPoints T xs)) :
+    assign T (fs.map (fun f => (inds.map (coordOf T.basePt T.h)).map f)) (inds.map (coordOf T.basePt T.h)) inds =
+      fill T fs xs :=
+  assign_eq_fill hg hI hfs xs hx inds hp
+
+/-- **Assigned table = standard table**, arbitrary functions: along any history in which, before each query,
+    the missing quadrature points of that query are assigned in any column order, `interpolate` (anywhere in
+    the closed box) and `gradient` (off the upper faces) of the function-less adaptive table equal the
+    standard table's. -/
+theorem assigned_eq_standard (axes : List Axis) (fs : List (List Rat → Rat)) (hist : List (Query × List C46.Coord))
+    (hwf : WF axes) (hfs : fs ≠ [])
+    (hok : AssignedOK fs (ATable.empty (hs axes) (lows axes) fs.length) hist)
+    (hq : ∀ p ∈ hist, p.1.inBox axes ∧ p.1.gradOffUpper axes) :
+    (ATable.empty (hs axes) (lows axes) fs.length).runAssigned fs hist =
+      hist.map (fun p => (mkTable axes fs).answer p.1) := by
+  rw [runAssigned_eq_run hwf hfs hist (ATable.empty (hs axes) (lows axes) fs.length) [] ⟨rfl, rfl⟩
+    (empty_inv _ _ fs) hok (fun p hp x hx => ((hq p hp).1 x hx).1),
+    adaptive_eq_standard axes fs (hist.map (·.1)) hwf hfs
+      (fun q hq' => by obtain ⟨p, hp, rfl⟩ := List.mem_map.mp hq'; exact hq p hp),
+    List.map_map]
+  rfl
+
+/-- … and for multilinear components, on the whole closed box (gradients on the upper faces included), the
+    assigned table returns the exact values / partial derivatives, as the standard table does. -/
+theorem assigned_eq_standard_multilinear (axes : List Axis) (ts : List ML) (hist : List (Query × List C46.Coord))
+    (hwf : WF axes) (hts : ts ≠ [])
+    (hok : AssignedOK (ts.map ML.eval) (ATable.empty (hs axes) (lows axes) (ts.map ML.eval).length) hist)
+    (hq : ∀ p ∈ hist, p.1.inBox axes ∧ p.1.axisOk axes.length) :
+    (ATable.empty (hs axes) (lows axes) (ts.map ML.eval).length).runAssigned (ts.map ML.eval) hist =
+        hist.map (fun p => (mkTable axes (ts.map ML.eval)).answer p.1) ∧
+    hist.map (fun p => (mkTable axes (ts.map ML.eval)).answer p.1) = hist.map (fun p => exactAnswer ts p.1) := by
+  have hqs : ∀ q ∈ hist.map (·.1), q.inBox axes ∧ q.axisOk axes.length := fun q hq' => by
+    obtain ⟨p, hp, rfl⟩ := List.mem_map.mp hq'; exact hq p hp
+  obtain ⟨h1, h2⟩ := adaptive_eq_standard_multilinear axes ts (hist.map (·.1)) hwf hts hqs
+  rw [List.map_map] at h1 h2
+  rw [List.map_map] at h2
+  refine ⟨?_, h2⟩
+  rw [runAssigned_eq_run hwf (by simpa using hts) hist
+    (ATable.empty (hs axes) (lows axes) (ts.map ML.eval).length) [] ⟨rfl, rfl⟩
+    (empty_inv _ _ _) hok (fun p hp x hx => ((hq p hp).1 x hx).1), h1]
+  rfl
+
+/-! ### the safeguarding branch of the adaptive `_find_base_vertex` -/
+
+/-- **What safeguarding computes.** With `danger x k` = "the fractional part of `(x_k − base_k)/h_k` exceeds
+    0.999", and the guard `safeGuard` = "some queried point is endangered on an axis with number ≥ 1":
+    if the guard holds, the base vertices are, for every point, its floored index raised by one on every
+    subset (the empty one included) of ITS endangered axes; otherwise just the floored indices. -/
+theorem safeguarding_spec (T : ATable) (xs : List (List Rat)) (b : C46.Coord) :
+    b ∈ safeBases T xs ↔
+      if safeGuard T xs = true then
+        ∃ x ∈ xs, ∃ v, IsBump (danger T.basePt T.h x) v ∧ b = addIncr (floorIdx T.basePt T.h x) v
+      else ∃ x ∈ xs, b = floorIdx T.basePt T.h x :=
+  mem_safeBases_iff T xs b
+
+/-- **The axis-0 quirk.** The guard tests the NUMBERS of the endangered axes (`np.any(rows_with_repeats)`), so
+    endangerment on axis 0 alone never triggers safeguarding: whenever no point is endangered on an axis
+    ≥ 1 the safeguarded base vertices are exactly the plain floored indices — in particular always for
+    tables with one parameter. -/
+theorem safeguarding_axis0_quirk (T : ATable) (xs : List (List Rat)) :
+    (safeGuard T xs = false → safeBases T xs = plainBases T xs) ∧
+    (T.h.length ≤ 1 → safeBases T xs = plainBases T xs) :=
+  ⟨safeBases_of_guard_false T xs, fun h1 => safeBases_of_guard_false T xs (safeGuard_one_param T xs h1)⟩
+
+/-- **Safeguarding never changes an answer** (exact arithmetic): for ANY component functions and any history of
+    queries (any points with `d` coordinates, inside the box or not), the adaptive table as coded (filling
+    with the safeguarded base vertices) and the table that fills with the plain floored indices return the
+    same answers. Safeguarding only stores additional vertices. -/
+theorem safeguarding_irrelevant (axes : List Axis) (fs : List (List Rat → Rat)) (qs : List Query)
+    (hwf : WF axes) (hfs : fs ≠ []) (hq : ∀ q ∈ qs, ∀ x ∈ q.points, x.length = axes.length) :
+    (ATable.empty (hs axes) (lows axes) fs.length).run fs qs =
+      (ATable.empty (hs axes) (lows axes) fs.length).runWith plainBases fs qs := by
+  rw [adaptive_run_ideal hwf hfs qs (ATable.empty (hs axes) (lows axes) fs.length) [] ⟨rfl, rfl⟩
+      (empty_inv _ _ fs) hq,
+    runWith_ideal goodSel_plain hwf hfs qs (ATable.empty (hs axes) (lows axes) fs.length) [] ⟨rfl, rfl⟩
+      (empty_inv _ _ fs) hq]
+
 /-! ### non-vacuity: concrete grids, functions and points (the queries of finding F7 among them) -/
 
 /-- 3 × 3 table on `[0,1]²` -/
@@ -236,5 +323,25 @@ example : Query.inBox ax2 (.grad [[1/2, 3/10]] 0) ∧ Query.gradOffUpper ax2 (.g
     simp only [List.mem_singleton] at hx
     subst hx
     decide +kernel
+
+/-- table fed from outside: the four vertices around (1/4, 1/2) assigned in a scrambled order, then two more
+    for the second query; the hypothesis `AssignedOK` holds and the answers are the exact values -/
+def histA : List (Query × List C46.Coord) :=
+  [(.interp [[1/4, 1/2]], [[1, 2], [0, 1], [1, 1], [0, 2]]), (.grad [[1/4, 1]] 0, [[1, 3], [0, 3]])]
+
+example : AssignedOK [t235.eval] (ATable.empty (hs ax2) (lows ax2) 1) histA := by
+  refine ⟨by decide +kernel, by decide +kernel, trivial⟩
+
+example : (ATable.empty (hs ax2) (lows ax2) 1).runAssigned [t235.eval] histA = [.ok [[29/8]], .ok [[7]]] := by
+  decide +kernel
+
+/-- safeguarding on a grid of mesh 1: a point a hair below a grid line on axis 0 only is NOT safeguarded (quirk),
+    on axis 1 it is; both give the same answers -/
+def Tq : ATable := ATable.empty [1, 1] [0, 0] 1
+example : safeBases Tq [[2047/1024, 1/2]] = [[1, 0]] := by decide +kernel
+example : safeBases Tq [[1/2, 2047/1024]] = [[0, 1], [0, 2]] := by decide +kernel
+example : safeBases Tq [[2047/1024, 2047/1024]] = [[1, 1], [1, 2], [2, 1], [2, 2]] := by decide +kernel
+example : Tq.run [t235.eval] [.interp [[1/2, 2047/1024]]] = Tq.runWith plainBases [t235.eval] [.interp [[1/2, 2047/1024]]] := by
+  decide +kernel
 
 end PorepyVerif.C41
